@@ -51,6 +51,51 @@ class _RetToBreak(ast.NodeTransformer):
         return ast.copy_location(ast.Break(), node)
 
 
+def _assign_returns(stmts, target, depth=0):
+    """the body with every `return v` replaced by `target = v` and the
+    statements after an `if` that returns moved into its branches, so that
+    the body falls through instead of returning.  None when a return sits
+    inside a loop / try / with (not expressible this way)."""
+    from .cfg import always_exits
+    if depth > 12:
+        return None
+    out = []
+    for i, st in enumerate(stmts):
+        if isinstance(st, ast.Return):
+            asg = ast.Assign(
+                targets=[copy.deepcopy(target)],
+                value=copy.deepcopy(st.value) if st.value is not None
+                else ast.Constant(value=None))
+            out.append(ast.copy_location(asg, st))
+            return out
+        if isinstance(st, ast.If) and _returns([st]):
+            rest = stmts[i + 1:]
+            b_exit = always_exits(st.body)
+            o_exit = always_exits(st.orelse) if st.orelse else False
+            body = _assign_returns(
+                st.body + ([] if b_exit else copy.deepcopy(rest)), target,
+                depth + 1)
+            orelse = _assign_returns(
+                st.orelse + ([] if o_exit else copy.deepcopy(rest)), target,
+                depth + 1)
+            if body is None or orelse is None:
+                return None
+            new = ast.If(test=st.test, body=body or [ast.Pass()],
+                         orelse=orelse)
+            out.append(ast.copy_location(new, st))
+            return out
+        if _returns([st]):
+            return None
+        out.append(st)
+    if not always_exits(out):
+        asg = ast.Assign(targets=[copy.deepcopy(target)],
+                         value=ast.Constant(value=None))
+        if out:
+            ast.copy_location(asg, out[-1])
+        out.append(asg)
+    return out
+
+
 def _inline_body(func, helper, call, target, depth, stack, keep=()):
     from .model import strip_docstring
     args = _bind_args(helper, call)
@@ -64,9 +109,16 @@ def _inline_body(func, helper, call, target, depth, stack, keep=()):
         only_tail = len(rets) == 1 and rets[0][0] is last
         if target is not None:
             if not only_tail or last.value is None:
-                return None
-            tail_value = last.value
-            body = body[:-1]
+                body = _assign_returns(copy.deepcopy(body),
+                                       ast.Name(id='$ret', ctx=ast.Store()))
+                if body is None:
+                    return None
+                ast.fix_missing_locations(ast.Module(body=body,
+                                                     type_ignores=[]))
+                rets = []
+            else:
+                tail_value = last.value
+                body = body[:-1]
         elif only_tail:
             body = body[:-1]
         else:
@@ -80,6 +132,12 @@ def _inline_body(func, helper, call, target, depth, stack, keep=()):
     hlocals = set(binding_order(helper.node))
     sub = _Subst(args, helper.name + '$', hlocals)
     new = [sub.visit(copy.deepcopy(st)) for st in body]
+    for st in new:
+        for x in ast.walk(st):
+            if isinstance(x, ast.Assign) and len(x.targets) == 1 and \
+                    isinstance(x.targets[0], ast.Name) and \
+                    x.targets[0].id == '$ret':
+                x.targets[0] = copy.deepcopy(target)
     if rets and tail_value is None and not (
             len(rets) == 1 and rets[0][0] is helper.node.body[-1]):
         new = [_RetToBreak().visit(st) for st in new]
@@ -102,6 +160,27 @@ def _inline_body(func, helper, call, target, depth, stack, keep=()):
     return _flatten_stmts(helper, new, depth + 1, stack + [helper.fq], keep)
 
 
+def _inline_tail(func, helper, ret, depth, stack, keep=()):
+    from .model import strip_docstring
+    from .cfg import always_exits
+    args = _bind_args(helper, ret.value)
+    if args is None:
+        return None
+    if any(isinstance(n, (ast.Yield, ast.YieldFrom))
+           for n in ast.walk(helper.node)):
+        return None
+    body = strip_docstring(helper.node.body)
+    sub = _Subst(args, helper.name + '$', set(binding_order(helper.node)))
+    new = [sub.visit(copy.deepcopy(st)) for st in body]
+    if not always_exits(new):
+        r = ast.Return(value=ast.Constant(value=None))
+        ast.copy_location(r, ret)
+        new.append(r)
+    for st in new:
+        ast.fix_missing_locations(st)
+    return _flatten_stmts(helper, new, depth + 1, stack + [helper.fq], keep)
+
+
 def _flatten_stmts(func, stmts, depth, stack, keep=()):
     out = []
     for st in stmts:
@@ -112,6 +191,16 @@ def _flatten_stmts(func, stmts, depth, stack, keep=()):
                 isinstance(st.value, ast.Call) and \
                 isinstance(st.targets[0], ast.Name):
             call, target = st.value, st.targets[0]
+        if isinstance(st, ast.Return) and isinstance(st.value, ast.Call) \
+                and depth < 3:
+            # `return self._helper(args)`: the helper's body takes the place
+            # of the statement, its returns become returns of the caller
+            h = _helper_of(func, st.value)
+            if h is not None and h.fq not in stack and h.name not in keep:
+                rep_ = _inline_tail(func, h, st, depth, stack, keep)
+                if rep_ is not None:
+                    out += rep_
+                    continue
         if call is not None and depth < 3:
             h = _helper_of(func, call)
             if h is not None and h.fq not in stack and h.name not in keep:
